@@ -40,6 +40,8 @@ bool tagUnitsMatchRefsUnits::operator()(const std::vector<DataArray> &references
             } else {
                 match = !tu.empty() || tu != "none";
             }
+            if (!match)
+                break;
         }
         if (!match)
             break;
